@@ -71,6 +71,10 @@ CHECKS = {
          "Seeded store names/descriptions from an adversarial dictionary (metadata field names, JSON fragments, unicode, long), all option combinations, 1-12 commits with cold reopen; StoreInfo must equal the creation-time one in every creation option, Count and contents must equal the model.",
          "Trusted: simulator, model. The harness inspects storeinfo.txt before opening a store so that a corrupted slot_length is reported instead of exhausting memory.",
          "7/C13"),
+ "C20": (EXPL, "deterministic simulation: writer/reader rounds under seeded schedules with forced cache evictions, lost entries, small capacities, clock advances; real-time-order oracle vs KV model",
+         "Rounds of one writer plus concurrent readers, followed by readers that begin only after the writer's Commit returned; L1/L2 capacities from 1 entry to defaults, cache durations none..long with TTL, injected lost/missing L2 entries, clock advances across expiries, optional restart (cold caches). Every Get/scan/Count of an after-reader must equal the latest committed state.",
+         "Trusted: simulator, KV model. Standalone caching only (one simulated process, in-memory L2 behind the proxy); the clustered Redis variant is not covered by this check (the Redis client is exercised by C28 against a stub). A task that spins inside sop is reported as a hang-class violation.",
+         "7/C20"),
 }
 
 NOT_APPLICABLE = {
